@@ -35,6 +35,11 @@ for p in props:
     if "ctx.concurrent(" in src:
         extra += (" The call is also made from four threads at once, each on its own data, "
                   "and every answer compared with the one obtained alone (DESIGN 12.10).")
+    if "ctx.small_stack(" in src:
+        extra += (" The call is repeated in a child interpreter on a thread with a 192 KiB "
+                  "stack: it must neither die nor answer differently (DESIGN 12.6 round 11).")
+    if "stdout_is_a_terminal" in src:
+        extra += (" The call is repeated with file descriptor 1 on a pseudo-terminal.")
     checks.append({
         "property_id": pid,
         "quick_cmd": f"./check {pid} --tier quick",
